@@ -70,7 +70,8 @@ def run(ctx: Ctx) -> None:
             params = [mk_param(i) for i in range(n)]
             args = [None if k is None else mk_arg(i, k) for i, k in enumerate(mask)]
             self_tok = Tok("self", params=params, inputs=[Tok("inp0", ty=transformable("inty0"), __ident__=1)], output=transformable("outty"),
-                           comptime_args=[transformable("cta0")], unitary_flags="FLAGS", __ident__=1)
+                           comptime_args=[transformable("cta0")], unitary_flags="FLAGS", __ident__=1,
+                           __classes__=(ip.cls.mro() if ip.cls is not None else []))  # helper methods of the class (static ones included) are followed
 
             def kw(node, ev, env):
                 return [ev.ev(a, env) for a in node.args], {k.arg: ev.ev(k.value, env) for k in node.keywords if k.arg}
